@@ -244,7 +244,7 @@ void wb_local_pool_access(const void *pool)
  * time-out path relies on it).  A signal pass dequeues exactly one element if there was one, a
  * broadcast pass every element. ---- */
 #define WB_WL_N 64
-#define WB_WL_MAX 48
+#define WB_WL_MAX 256
 typedef struct wb_wlrec {
     const ABTI_waitlist *wl;
     int n;
